@@ -101,8 +101,19 @@ def cluster_retry_phase(tier, seed, wd, verdict):
     still hold the first attempt's session, so every retry is refused in its prepare phase.  After many retries (more than any
     per-peer resource an instance might hold on to for each refused call) other clients' requests - a listing, a VALID Generate
     through the same instance and through another one - must still be answered."""
-    import dkgfamily
-    nretry = 100 if tier == "quick" else 400
+    import dkgfamily, re
+    # SenderPool.tla: connections are only held by calls in flight, whatever the peers answer; "release on success only" is killed, and
+    # the wedge it leads to (no call can move) is reached after Cap refused calls to one peer
+    pool = dict(Peers={"p1", "p2"}, Calls={"c1", "c2", "c3", "c4", "c5"}, Cap=2, ReleaseOn="always")
+    r = tlc("SenderPool", make_cfg(pool, spec="FairSpec", invariants=["NoLeak", "Bounded", "NoWedge"], properties=["Termination"], deadlock=False), wd, name="SenderPool", timeout=600)
+    require_ok(r, "SenderPool")
+    rm = tlc("SenderPool", make_cfg(dict(pool, ReleaseOn="success"), invariants=["Bounded", "NoWedge"], deadlock=False), wd, name="SenderPool_mut", timeout=600)
+    require_killed(rm, "SenderPool mutant ReleaseOn=success")
+    # the number of retries follows the pool size the CODE uses (refused calls needed by the broken design: Cap per peer)
+    src = open(os.path.join(REPO, "services/sender/grpc/service.go")).read()
+    m = re.search(r"puddle\.NewPool\([^)]*?,\s*(\d+)\)", src)
+    cap = int(m.group(1)) if m else 32
+    nretry = max(100 if tier == "quick" else 400, 2 * cap + 8)
     calls = [dict(inst=1, caller="c1", msg="generate", account="DW/before", n=3, t=2)]
     calls += [dict(inst=1, caller="c1", msg="generate", account="DW/_again", n=3, t=2) for _ in range(nretry)]
     calls += [dict(inst=1, caller="c1", msg="generate", account="DW/after1", n=3, t=2), dict(inst=2, caller="c1", msg="generate", account="DW/after2", n=3, t=2),
@@ -118,7 +129,7 @@ def cluster_retry_phase(tier, seed, wd, verdict):
         if not cl or cl[0]["result"] != "ok":
             raise Inconclusive("retried distributed Generate: the first, valid generation did not succeed: %s" % cl[:1])
         silent = [e for e in cl if e.get("noanswer") or e.get("crashed")]
-        res = dict(requests=len(cl), retries=nretry, retries_refused=sum(1 for e in cl[1:1 + nretry] if e["result"] != "ok"), answered_after=sum(1 for e in cl[1 + nretry:] if not e.get("noanswer")),
+        res = dict(requests=len(cl), retries=nretry, pool_size_in_code=cap, model=dict(module="SenderPool", distinct=r.distinct, mutant_killed_by=rm.violated), retries_refused=sum(1 for e in cl[1:1 + nretry] if e["result"] != "ok"), answered_after=sum(1 for e in cl[1 + nretry:] if not e.get("noanswer")),
                    succeeded_after=sum(1 for e in cl[1 + nretry:] if e["result"] == "ok"))
         if not silent:
             break
